@@ -231,7 +231,9 @@ def validate_traces(scratch, trace_file, trace_name, module, cfg, max_shards=Non
             for i, line in enumerate(open(trace_file)):
                 if i % max(1, n // 12) == 0:
                     o.write(line)
-    shards = shard_file(trace_file, min(max_shards or NCPU, max(1, n // 50 + 1)), scratch, trace_name)
+    # at most 25 000 lines per TLC run (one JVM deserialises its whole shard), at most NCPU runs at a time
+    want = max(min(max_shards or NCPU, max(1, n // 50 + 1)), (n + 24999) // 25000)
+    shards = shard_file(trace_file, want, scratch, trace_name)
     for d, _ in shards:
         copy_specs(d)
 
@@ -244,7 +246,7 @@ def validate_traces(scratch, trace_file, trace_name, module, cfg, max_shards=Non
 
     bad = []
     states = 0
-    with concurrent.futures.ThreadPoolExecutor(max_workers=len(shards)) as ex:
+    with concurrent.futures.ThreadPoolExecutor(max_workers=min(len(shards), NCPU)) as ex:
         for r in ex.map(one, shards):
             bad += r["vbad"]
             states += r["distinct"]
